@@ -23,3 +23,4 @@ reg("C01", "exploration", [P("pipe", "image")])
 reg("C02", "exploration", [P("pipe", "safety"), P("pipe", "safety", profile="verif-rel", tiers=("thorough",), name="safety-rel")])
 reg("C06", "model_checking", [P("pipe", "order")])
 reg("C07", "exploration", [P("pipe", "config")])
+reg("C10", "exploration", [])  # driven by special.py (corpus of generated programs, rustc as the implementation)
